@@ -37,7 +37,7 @@ deriving DecidableEq, Repr, Inhabited
 
 structure Cfg where
   max    : Nat
-  ttl    : Option Nat      -- milliseconds; none = entries never expire
+  ttl    : Option Nat      -- clock ticks (1 ms; 1 µs in `tick=us` cases); none = entries never expire
   policy : Policy
 deriving Repr
 
